@@ -397,9 +397,9 @@ fn main() {
 		let name = format!("cuts-{w:?}").to_lowercase();
 		let reg: Vec<Case> = check.regression_cases(&name);
 		check.enumerate(&format!("regress-{w:?}").to_lowercase(), reg, false, oracle);
-		check.phase(&name, check.cases(1000, 30_000), || strategy(w, false), oracle);
-		check.phase(&format!("all-byte-{name}"), check.cases(500, 15_000), || strategy(w, true), oracle);
-		check.phase(&format!("rewrite-{w:?}").to_lowercase(), check.cases(300, 8000), || strategy(w, false), rewrite_oracle);
+		check.phase(&name, check.cases(2500, 60_000), || strategy(w, false), oracle);
+		check.phase(&format!("all-byte-{name}"), check.cases(1200, 30_000), || strategy(w, true), oracle);
+		check.phase(&format!("rewrite-{w:?}").to_lowercase(), check.cases(800, 20_000), || strategy(w, false), rewrite_oracle);
 	}
 	check.finish();
 }
